@@ -11,11 +11,11 @@ RULE = ("cases = seeded gRPC service configs (several entries, entries naming se
         "services, entries naming unknown methods); for every method every canonical status code is injected once (enumerated), plus "
         "random fault sequences up to length 6, an endless retryable sequence, for retry-only entries a run of retryable failures whose "
         "backoffs exceed 200 virtual seconds (no overall deadline may appear), and explicit retry=/timeout= overrides, through sync "
-        "and asyncio clients; the judge compares attempts, per-attempt deadlines, the sleeps requested through a virtual clock "
+        "and asyncio clients, and over REST HTTP 503 / 500 replies with JSON, plain-text, HTML and empty bodies; the judge compares attempts, per-attempt deadlines, the sleeps requested through a virtual clock "
         "(jitter pinned to its upper bound) and the outcome with a reference computed from the entry; distinct = distinct (entry "
         "kind, fault sequence shape, client kind, override) that held")
 ASSUMPTIONS = ["google.api_core.retry's clock and random are replaced by a virtual clock / upper-bound jitter",
-               "over REST only the deadline is judged (the timeout handed to the HTTP session on a clean call); retries over REST are not (HTTP status mapping is api-core's)", "maxAttempts is not part of the statement",
+               "over REST the deadline is judged on clean calls (the timeout handed to the HTTP session) and the retry decision on HTTP 503 / 500 replies only (whose api-core exception classes are the ones the predicates name), with JSON, plain-text, HTML and empty bodies; other HTTP statuses map to classes the gRPC-code predicates do not name and are not judged", "maxAttempts is not part of the statement",
                "request-streaming methods are judged through the sync client only (asyncio: one attempt whatever the default; the stream call objects of grpc.aio surface errors outside AsyncRetry)"]
 CASE_TIMEOUT = 600
 PARALLEL = 12
@@ -25,7 +25,7 @@ def floors(tier):
     k = 1 if tier == "quick" else 7
     return {"calls_judged": 3000 * k, "single_code_injections": 2000 * k, "retried_calls": 300 * k, "sleeps_compared": 600 * k,
             "deadlines_compared": 2500 * k, "retry_error_by_deadline": 20 * k, "unnamed_method_calls": 800 * k, "override_calls": 200 * k,
-            "client:aio": 1200 * k, "retry_only_entry_failing_for_minutes": 4 * k, "second_page_fault_calls": 40 * k, "rest_calls_judged": 150 * k, "rest_deadlines_compared": 40 * k, "sub_package_cases": 2 if tier == "quick" else 8, "request_streaming_calls": 300 * k}
+            "client:aio": 1200 * k, "retry_only_entry_failing_for_minutes": 4 * k, "second_page_fault_calls": 40 * k, "rest_calls_judged": 150 * k, "rest_fault_calls_judged": 200 * k, "rest_fault_body:text": 40 * k, "rest_fault_body:empty": 40 * k, "rest_deadlines_compared": 40 * k, "sub_package_cases": 2 if tier == "quick" else 8, "request_streaming_calls": 300 * k}
 
 
 def plan(seed, tier):
@@ -163,6 +163,14 @@ def run_case(case):
             calls.append({"service": s.name, "full_service": fs, "rpc": m.name, "method": rdm.py_method(m.name), "client": "rest",
                           "seq": [], "shape": "rest-" + api.info["http_shape"].get(f"{s.name}.{m.name}", "?"), "override": ov,
                           "req_type": m.input_type.lstrip("."), "request": rdm.b64(rq.SerializeToString())})
+        # REST faults: the stub must turn an HTTP error reply into the API exception of its status, whatever the body looks like
+        # (Google's JSON error, a proxy's plain text / HTML, nothing at all): that exception is what the default retry decides on
+        if not m.client_streaming and m.name != "List":
+            bodies = ["json", "text", "empty", "html"]
+            for codes in (["UNAVAILABLE", "UNAVAILABLE"], ["INTERNAL"], ["UNAVAILABLE", "INTERNAL"]):
+                calls.append({"service": s.name, "full_service": fs, "rpc": m.name, "method": rdm.py_method(m.name), "client": "rest",
+                              "seq": codes, "rest_fault": [[{"UNAVAILABLE": 503, "INTERNAL": 500}[c], rng.choice(bodies)] for c in codes],
+                              "shape": "rest-fault", "override": {}, "req_type": m.input_type.lstrip("."), "request": rdm.b64(rq.SerializeToString())})
         if m.name == "List" and R:
             # the second page of a listing fails: default retry, explicit retry=None and a custom retry each decide that fetch
             p1 = model.new(m.output_type)
@@ -224,6 +232,23 @@ def run_case(case):
 
         if r.get("harness_error"):
             bad("client-raised-unexpectedly", r["harness_error"])
+        elif call["client"] == "rest" and call.get("rest_fault"):
+            bump("rest_fault_calls_judged")
+            for _, bk in call["rest_fault"]:
+                bump("rest_fault_body:" + bk)
+            mech["bodies"] = sorted({bk for _, bk in call["rest_fault"]} - {"json"})
+            n = len(r["session_timeouts"])
+            got = r["outcome"]
+            if n != att:
+                bad("attempt-count", f"{n} HTTP requests, reference {att}; fault replies {call['rest_fault']}; outcome {got}")
+            elif outcome.get("ok"):
+                if not got.get("ok"):
+                    bad("outcome", f"expected the reply, got {got}")
+            elif outcome.get("retry_error"):
+                if got.get("type") != "RetryError":
+                    bad("outcome", f"expected RetryError once the overall deadline is exhausted, got {got}")
+            elif got.get("code") != outcome["code"]:
+                bad("outcome", f"expected the exception of {outcome['code']}, got {got}; fault replies {call['rest_fault']}")
         elif call["client"] == "rest":
             bump("rest_calls_judged")
             if not r["outcome"].get("ok") or len(r["session_timeouts"]) != 1:
@@ -349,6 +374,11 @@ def in_runner(script):
                 rcl[svc] = lib.rest_client(svc, http.host)
             del seen[:]
             o = {}
+            fb = {"json": ('{"error": {"code": %d, "message": "injected", "status": "INJECTED"}}', "application/json"),
+                  "text": ("upstream connect error or disconnect/reset before headers", "text/plain"),
+                  "empty": ("", "text/plain"), "html": ("<html><body><h1>%d</h1></body></html>", "text/html")}
+            http.script([{"status": st, "body": (fb[bk][0] % st) if "%d" in fb[bk][0] else fb[bk][0], "ctype": fb[bk][1]}
+                         for st, bk in call.get("rest_fault") or []])
             t0 = _time.monotonic()
             try:
                 ret = getattr(rcl[svc], call["method"])(request=lib.mk(call["req_type"], rt.unb64(call["request"])), **kwargs_of(call))
@@ -359,6 +389,7 @@ def in_runner(script):
                 o["outcome"] = outcome_of(e)
             o["session_timeouts"] = [x if (x is None or isinstance(x, (int, float, str))) else repr(x) for x in seen]
             o["stall_s"] = _time.monotonic() - t0
+            http.script([])
             results[i] = o
         gatr.AuthorizedSession.request = orig
 
